@@ -4,7 +4,7 @@
    state after the label sequence tr (ANY interleaving of accepter, context, peers, handlers and the
    goroutines of Loop) with the F10 fix in place. *)
 From Coq Require Import List Arith Bool.
-From JV Require Import Loop LoopProofs.
+From JV Require Import Loop LoopProofs NetAccepter LoopMore.
 Import ListNotations.
 
 (* Every started server uses the instance (and the assigner) obtained from its own connection's
@@ -112,3 +112,166 @@ Theorem c20_refuted_without_F10 :
                count_occ Nat.eq_dec (closed_conns s) 0 = 0.
 Proof. exact refuted_without_F10. Qed.
 Print Assumptions c20_refuted_without_F10.
+
+(* The accept loop fails once, and Loop returns the value of that failure: while Accepting no AcceptErr has
+   occurred; afterwards exactly one error e has; once returned, the value is retv_of e (nil iff closing). *)
+Theorem c20_accept_fails_once : forall tr s, (exists os, run (init true) tr = Some (s, os)) ->
+  match acc s with
+  | Accepting => (forall e, ~ In (AcceptErr e) tr) /\ (forall v, ~ In (LoopReturn v) tr)
+  | Waiting e => In (AcceptErr e) tr /\ (forall e', In (AcceptErr e') tr -> e' = e) /\ (forall v, ~ In (LoopReturn v) tr)
+  | Returned v => exists e, v = retv_of e /\ In (AcceptErr e) tr /\ (forall e', In (AcceptErr e') tr -> e' = e) /\
+                            In (LoopReturn v) tr
+  end.
+Proof. exact acc_hist_reach. Qed.
+Print Assumptions c20_accept_fails_once.
+
+(* THE GENERAL QUIESCENT FORM (no assumption on the context): when no goroutine of Loop, no server and no
+   accepter honouring ctx can move, every connection is done, or is a running server that no stop cause has
+   reached (context alive, peer there), or is a stopped server with a handler still running; the accept loop is
+   Accepting only if the context is alive; it is Waiting only while some connection is not done; and - an
+   accepter failure e without context end included - as soon as no server is running or stopping any more, Loop
+   HAS RETURNED, with the value of e (nil iff e is the closing error). *)
+Theorem c20_quiescent_general : forall tr s, (exists os, run (init true) tr = Some (s, os)) -> quiescent s = true ->
+  (forall k c, get s k = Some c ->
+     is_done (c_phase c) = true \/
+     (c_phase c = PRunning /\ forall st, trigger (ctx_done s) c st = false) \/
+     (exists st, c_phase c = PStopping st /\ c_busy c > 0)) /\
+  (acc s = Accepting -> ctx_done s = false) /\
+  (forall e, acc s = Waiting e -> exists k c, get s k = Some c /\ is_done (c_phase c) = false) /\
+  ((forall k c, get s k = Some c -> c_phase c <> PRunning /\ forall st, c_phase c <> PStopping st) ->
+   forall e, In (AcceptErr e) tr ->
+     acc s = Returned (retv_of e) /\ In (LoopReturn (retv_of e)) tr /\ (retv_of e = RNil <-> e = EClosing)).
+Proof. exact quiescent_general. Qed.
+Print Assumptions c20_quiescent_general.
+
+(* "After its server has fully exited": wherever SrvExit k st occurs, the server had been started and stopped
+   for st before, no handler of k was running at that moment, and none runs (starts or returns) afterwards. *)
+Theorem c20_exit_means_idle : forall tr s k st t1 t2, (exists os, run (init true) tr = Some (s, os)) ->
+  tr = t1 ++ SrvExit k st :: t2 ->
+  (exists s1 c, reach t1 s1 /\ get s1 k = Some c /\ c_phase c = PStopping st /\ c_busy c = 0 /\
+                In (SrvStop k st) t1 /\ In (StartSrv k) t1) /\
+  (forall l, In l t2 -> l <> CallStart k /\ l <> CallEnd k).
+Proof. exact exit_means_idle. Qed.
+Print Assumptions c20_exit_means_idle.
+
+(* One server per accepted connection, trace level: the labels of connection k ([proj k tr]) are, in order and
+   each once, exactly a prefix-closed life path ([path_of s k]): Accept, NewSvc, AssignerOk, StartSrv, SrvStop st,
+   SrvExit st, Finish, ConnDone - or Accept, NewSvc, AssignerFail, ConnDone (no server, no Finish); no label of
+   a connection occurs twice (StartSrv, NewSvc, Finish, SrvExit ...). *)
+Theorem c20_life_order : forall tr s, (exists os, run (init true) tr = Some (s, os)) ->
+  (forall k, proj k tr = path_of s k) /\
+  (forall l k, life l = Some k -> count_occ label_eq_dec tr l <= 1) /\
+  (forall k, In (StartSrv k) tr -> In (Accept k) tr /\ In (NewSvc k) tr /\ In (AssignerOk k) tr /\ ~ In (AssignerFail k) tr) /\
+  (forall k, In (NewSvc k) tr -> In (Accept k) tr).
+Proof. exact life_order. Qed.
+Print Assumptions c20_life_order.
+
+(* Fresh newService per connection and one Finish per finished server, on the observations of the whole run:
+   the newService calls observed are instance 0, 1, 2, ... in order, one per NewSvc label; the Finish calls
+   observed (instance, assigner, status) are exactly the entries of the finish log, one per Finish label, in order. *)
+Theorem c20_trace_accounts : forall tr s os, run (init true) tr = Some (s, os) ->
+  newsvc_of os = seq 0 (next_svc s) /\ next_svc s = length (filter is_newsvc tr) /\
+  finish_of os = map fl_args (finish_log s) /\
+  map (fun x => Finish (fl_conn x)) (finish_log s) = filter is_finish tr.
+Proof. exact run_accounts. Qed.
+Print Assumptions c20_trace_accounts.
+
+(* ... at most one entry per connection; the entry of connection k carries k's own instance i, the assigner that
+   instance returned, and the status st with which k's server exited (SrvExit k st, SrvStop k st in the trace: the
+   first cause); its Assigner did not fail. *)
+Theorem c20_finish_log : forall tr s, (exists os, run (init true) tr = Some (s, os)) ->
+  NoDup (map fl_conn (finish_log s)) /\
+  (forall k, In k (map fl_conn (finish_log s)) <-> In (Finish k) tr) /\
+  forall k i a st, In (k, i, a, st) (finish_log s) ->
+    a = i /\ (exists c, get s k = Some c /\ c_svc c = Some i /\ c_asg c = Some i /\ c_used c = Some i) /\
+    In (Finish k) tr /\ In (SrvExit k st) tr /\ In (SrvStop k st) tr /\ In (StartSrv k) tr /\ In (NewSvc k) tr /\
+    ~ In (AssignerFail k) tr.
+Proof. exact finish_log_spec. Qed.
+Print Assumptions c20_finish_log.
+
+(* NETACCEPTER (model loop/NetAccepter.v: Accept spawns a watcher that closes the listener when ctx ends;
+   Listener.Accept yields the closing error only on a closed listener; nobody else closes it) composed with Loop
+   ([jrun]: Loop calls Accept while Accepting; a returning call is Loop's Accept k / AcceptErr e; [jproj jinit tr]
+   is the Loop trace of the composed run).  Every composed run is a run of Loop (so all theorems above apply): *)
+Theorem c20_over_net_accepter_is_loop : forall tr s a, (exists os, jrun jinit tr = Some ((s, a), os)) ->
+  exists os, run (init true) (jproj jinit tr) = Some (s, os).
+Proof. exact jreach_reach. Qed.
+Print Assumptions c20_over_net_accepter_is_loop.
+
+(* the closing error comes only after the context end: the listener is closed only once ctx has ended; every
+   error Loop gets from Accept is one Listener.Accept returned; a closing error is preceded by the context end *)
+Theorem c20_net_accepter_closing : forall tr s a, (exists os, jrun jinit tr = Some ((s, a), os)) ->
+  ctx_done s = na_ctx a /\
+  (na_lclosed a = true -> ctx_done s = true /\ In JCtxEnd tr) /\
+  (forall e, In (AcceptErr e) (jproj jinit tr) -> In (JNA (NAErr e)) tr) /\
+  (forall t1 t2, tr = t1 ++ JNA (NAErr EClosing) :: t2 -> In JCtxEnd t1) /\
+  (In (AcceptErr EClosing) (jproj jinit tr) -> In JCtxEnd tr).
+Proof. exact na_closing_error. Qed.
+Print Assumptions c20_net_accepter_closing.
+
+(* CONTEXT END -> LOOP RETURNS NIL, without the assumption "the accepter yields a closing error when ctx ends" of
+   [enabled]: in the composition that error is produced by NetAccepter's own steps.  After the context end, when
+   nothing of Loop, its servers or NetAccepter can move (the arrival of a connection / a failure of the listener
+   itself are the environment's): the accept loop is over, no Accept call and no watcher goroutine is left, the
+   connections are done or stopped servers waiting for a handler; and if no handler is running Loop has returned,
+   with nil if the listener never failed by itself. *)
+Theorem c20_ctx_end_returns_nil : forall tr s a, (exists os, jrun jinit tr = Some ((s, a), os)) ->
+  ctx_done s = true -> jquiescent (s, a) = true ->
+  acc s <> Accepting /\ na_call a = CIdle /\ (forall j w, nth_error (na_ws a) j = Some w -> w = WGone) /\
+  quiescent s = true /\
+  (forall k c, get s k = Some c -> is_done (c_phase c) = true \/ (exists st, c_phase c = PStopping st /\ c_busy c > 0)) /\
+  ((forall k c, get s k = Some c -> c_busy c = 0) ->
+     exists e, acc s = Returned (retv_of e) /\ In (JNA (NAErr e)) tr /\ In (LoopReturn (retv_of e)) (jproj jinit tr) /\
+               (~ In (JNA (NAErr EOther)) tr -> e = EClosing /\ acc s = Returned RNil)).
+Proof. exact ctx_end_returns_nil. Qed.
+Print Assumptions c20_ctx_end_returns_nil.
+
+(* TERMINATION of the internal steps.  [is_internal l]: l is a step of a goroutine of Loop, of an abstract server
+   or of the accepter (everything but Accept, CtxEnd, PeerClose, PeerFail, CallStart, CallEnd); [mu s] = steps the
+   accept loop can still take (2/1/0) + for each connection the steps left on its life path.  Every internal
+   step decreases mu; an environment step leaves it alone except a new connection (+7). *)
+Theorem c20_internal_steps_decrease : forall s l s' os, step s l = Some (s', os) ->
+  (is_internal l = true -> mu s' < mu s) /\
+  (is_internal l = false -> mu s' = mu s + (match l with Accept _ => 7 | _ => 0 end)).
+Proof. exact (fun s l s' os H => conj (mu_decreases s l s' os H) (mu_env s l s' os H)). Qed.
+Print Assumptions c20_internal_steps_decrease.
+
+(* hence no infinite sequence of internal steps: a run of internal steps from s has at most mu s of them *)
+Theorem c20_internal_runs_bounded : forall tr s s' os, run s tr = Some (s', os) -> forallb is_internal tr = true ->
+  length tr + mu s' <= mu s.
+Proof. exact internal_run_bounded. Qed.
+Print Assumptions c20_internal_runs_bounded.
+
+(* what [enabled_internal] lists is internal and can be taken *)
+Theorem c20_enabled_internal_sound : forall tr s l, (exists os, run (init true) tr = Some (s, os)) ->
+  In l (enabled_internal s) -> is_internal l = true /\ exists s' os, step s l = Some (s', os).
+Proof. exact enabled_internal_sound. Qed.
+Print Assumptions c20_enabled_internal_sound.
+
+(* EVENTUALLY QUIESCENT: from every reachable state the internal steps alone reach a quiescent state within
+   mu s steps (and, by the bound above, whichever internal step is taken each time, they run out) *)
+Theorem c20_eventually_quiescent : forall tr s, (exists os, run (init true) tr = Some (s, os)) ->
+  exists tr' s', forallb is_internal tr' = true /\ reach (tr ++ tr') s' /\ quiescent s' = true /\
+                 length tr' <= mu s /\ (exists os, run s tr' = Some (s', os)).
+Proof. exact (fun tr s R => eventually_quiescent (mu s) tr s R (le_n _)). Qed.
+Print Assumptions c20_eventually_quiescent.
+
+(* EVENTUALLY, trace form of c20_ctx_stops_all: once the context has ended and no handler is running, internal
+   steps alone (at most mu s) bring every connection to done and Loop to return *)
+Theorem c20_ctx_end_eventually_returns : forall tr s, (exists os, run (init true) tr = Some (s, os)) ->
+  ctx_done s = true -> (forall k c, get s k = Some c -> c_busy c = 0) ->
+  exists tr' s', forallb is_internal tr' = true /\ length tr' <= mu s /\ reach (tr ++ tr') s' /\
+                 quiescent s' = true /\ returned s' = true /\
+                 (forall k c, get s' k = Some c -> is_done (c_phase c) = true).
+Proof. exact ctx_end_eventually_returns. Qed.
+Print Assumptions c20_ctx_end_eventually_returns.
+
+(* EVENTUALLY, for an accepter failure e without context end: internal steps alone reach a quiescent state in
+   which Loop has returned retv_of e unless a server is still running or stopping (its stop is the environment's) *)
+Theorem c20_accept_failure_eventually : forall tr s e, (exists os, run (init true) tr = Some (s, os)) ->
+  In (AcceptErr e) tr ->
+  exists tr' s', forallb is_internal tr' = true /\ length tr' <= mu s /\ reach (tr ++ tr') s' /\ quiescent s' = true /\
+    ((forall k c, get s' k = Some c -> c_phase c <> PRunning /\ forall st, c_phase c <> PStopping st) ->
+       acc s' = Returned (retv_of e) /\ In (LoopReturn (retv_of e)) (tr ++ tr')).
+Proof. exact accept_failure_eventually. Qed.
+Print Assumptions c20_accept_failure_eventually.
